@@ -19,6 +19,21 @@ CHECKS = [
     },
 ]
 
+CHECKS.append({
+    "property_id": "C17",
+    "design_ref": "DESIGN.md 5 (C17)",
+    "technique": "Coq proof over slice descriptors regenerated from priors.estimate_sky by an ast translator (list/Z reasoning: membership, NoDup, length, "
+                 "invariance) + kernel-checked vm_compute correspondence with the real estimate_sky / SourceProperties",
+    "text": "Eight theorems (Props/C17.v, closed under the global context) hold for ALL H,W>=2n, n>=1, images and masks: the gathered pixels are "
+            "exactly those within n of an edge, each once, H*W-(H-2n)(W-2n) of them; the value multiset behind median/scatter depends only on "
+            "unmasked border pixels (interior and masked-pixel invariance); count = border minus masked border.  The slices, the concatenate "
+            "flavour (mask-preserving or not) and the count expression are re-extracted from the source on every run, so the theorems are "
+            "re-checked against what the code says now; the numpy semantics they rest on is exercised by the correspondence.",
+    "note": "Trusted: Coq kernel + vm_compute; translator unit EstimateSky; modelled numpy behaviour (basic slicing, np.ma.concatenate keeps "
+            "masks, np.ma.median / astropy biweight_scale ignore masked entries) tied by correspondence on integer-valued images; the scatter is "
+            "compared with astropy's own function applied to the model's multiset, not re-derived.",
+})
+
 _PENDING = "check not built yet in this session (build order in DESIGN.md section 9); will be claimed once its Coq model, theorems and tie exist"
 NOT_APPLICABLE = [
     {"property_id": "C%02d" % i, "reason": _PENDING}
